@@ -1,5 +1,6 @@
 """C16 - hosts are stored in one canonical form and hostile hosts are rejected."""
-from ..rules import host
+from ..rules import flow, host
+from ..rules.kindrules import make_kinds
 
 META = {}
 
@@ -19,3 +20,4 @@ def run(ctx):
     host.t9(ctx)
     host.ord3_ord5c(ctx)
     host.ord5(ctx)
+    flow.f2(ctx, make_kinds(ctx.model))     # every route that re-assembles the authority (str() included) uses the bracketed host
